@@ -696,22 +696,40 @@ end Bycycle.Slots
 
 
 # ------------------------------------------------------------------ copy guards (C15, C14) and object helpers
+_TRANSLATED = {}
+def _translated_pure(fname, param):
+    """the TRANSLATED body of `fname` (harness/efftrans.py) writes neither its parameter `param` nor anything inside it"""
+    if 'v' not in _TRANSLATED:
+        import efftrans
+        fns, bodies, summ, rets, unknown = efftrans.translate_all(2)
+        _TRANSLATED['v'] = (fns, summ)
+    fns, summ = _TRANSLATED['v']
+    if fname not in fns or param not in fns[fname].names:
+        return False
+    i = fns[fname].index(param)
+    return i not in summ[fname] and i + 1 not in summ[fname]
+
 def effects_slots(S):
-    def has(path, fname, pattern):
+    _TRANSLATED.clear()
+    def has(path, fname, pattern, param=None):
+        # the guard holds when the literal statement is there, or - after a refactoring that moved it (into a helper, another spelling) -
+        # when the statement-by-statement translation of the function shows that the parameter it protects is never written
         def th():
             src = ast.unparse(_func(path, fname))
-            return bool(_re.search(pattern, src))
+            if _re.search(pattern, src):
+                return True
+            return bool(param) and _translated_pure(fname, param)
         return th
     G = {}
     G['cfCopyBk'] = S.get('guard.compute_features.copy_burst_kwargs', True,
-                          has('bycycle/features/features.py', 'compute_features', r'burst_kwargs = burst_kwargs\.copy\(\) if isinstance\(burst_kwargs, dict\) else burst_kwargs|burst_kwargs = (?:dict|deepcopy)\(burst_kwargs\)'))
+                          has('bycycle/features/features.py', 'compute_features', r'burst_kwargs = burst_kwargs\.copy\(\) if isinstance\(burst_kwargs, dict\) else burst_kwargs|burst_kwargs = (?:dict|deepcopy)\(burst_kwargs\)', 'burst_kwargs'))
     G['cfCopyTh'] = S.get('guard.compute_features.copy_threshold_kwargs', True,
-                          has('bycycle/features/features.py', 'compute_features', r'threshold_kwargs = threshold_kwargs\.copy\(\) if isinstance\(threshold_kwargs, dict\) else threshold_kwargs|threshold_kwargs = (?:dict|deepcopy)\(threshold_kwargs\)'))
+                          has('bycycle/features/features.py', 'compute_features', r'threshold_kwargs = threshold_kwargs\.copy\(\) if isinstance\(threshold_kwargs, dict\) else threshold_kwargs|threshold_kwargs = (?:dict|deepcopy)\(threshold_kwargs\)', 'threshold_kwargs'))
     G['bfCopy'] = S.get('guard.compute_burst_features.copy_burst_kwargs', True,
-                        has('bycycle/features/burst.py', 'compute_burst_features', r'burst_kwargs = \{\} if burst_kwargs is None else burst_kwargs\.copy\(\)|burst_kwargs = (?:dict|deepcopy)\(burst_kwargs\)'))
-    G['deepcopy2d'] = S.get('guard.compute_features_2d.deepcopy', True, has('bycycle/group/features.py', 'compute_features_2d', r'kwargs = deepcopy\(compute_features_kwargs\)'))
-    G['deepcopy3d'] = S.get('guard.compute_features_3d.deepcopy', True, has('bycycle/group/features.py', 'compute_features_3d', r'kwargs = deepcopy\(compute_features_kwargs\)'))
-    G['edgesCopy'] = S.get('guard.recompute_edges.copy', True, has('bycycle/burst/utils.py', 'recompute_edges', r'df_features_edges = df_features\.copy\(\)'))
+                        has('bycycle/features/burst.py', 'compute_burst_features', r'burst_kwargs = \{\} if burst_kwargs is None else burst_kwargs\.copy\(\)|burst_kwargs = (?:dict|deepcopy)\(burst_kwargs\)', 'burst_kwargs'))
+    G['deepcopy2d'] = S.get('guard.compute_features_2d.deepcopy', True, has('bycycle/group/features.py', 'compute_features_2d', r'kwargs = deepcopy\(compute_features_kwargs\)', 'compute_features_kwargs'))
+    G['deepcopy3d'] = S.get('guard.compute_features_3d.deepcopy', True, has('bycycle/group/features.py', 'compute_features_3d', r'kwargs = deepcopy\(compute_features_kwargs\)', 'compute_features_kwargs'))
+    G['edgesCopy'] = S.get('guard.recompute_edges.copy', True, has('bycycle/burst/utils.py', 'recompute_edges', r'df_features_edges = df_features\.copy\(\)', 'df_features'))
     def neg_fresh():
         fn = _func('bycycle/features/shape.py', 'compute_shape_features')
         for n in ast.walk(fn):
@@ -724,12 +742,12 @@ def effects_slots(S):
                     if isinstance(st, ast.AugAssign) or 'out=sig' in ast.unparse(st):
                         return False
                     raise ValueError('negation statement outside grammar: ' + ast.unparse(st))
-        return None
+        return True if _translated_pure('compute_shape_features', 'sig') else None
     G['negFresh'] = S.get('guard.compute_shape_features.negation_fresh', True, neg_fresh)
     G['plotCopy'] = S.get('guard.plot_burst_detect_summary.copy_thresholds', True,
-                          has('bycycle/plts/burst.py', 'plot_burst_detect_summary', r'thresholds = threshold_kwargs\.copy\(\)|thresholds = (?:dict|deepcopy)\(threshold_kwargs\)'))
-    G['limitFresh'] = S.get('guard.limit_df.filter_before_write', True, has('bycycle/utils/dataframes.py', 'limit_df', r"df = df\[df\['sample_last_' \+ side_e\]\.values"))
-    G['epochFresh'] = S.get('guard.epoch_df.iloc_before_write', True, has('bycycle/utils/dataframes.py', 'epoch_df', r'df_single = df_features\.iloc\[idx_range\]'))
+                          has('bycycle/plts/burst.py', 'plot_burst_detect_summary', r'thresholds = threshold_kwargs\.copy\(\)|thresholds = (?:dict|deepcopy)\(threshold_kwargs\)', 'threshold_kwargs'))
+    G['limitFresh'] = S.get('guard.limit_df.filter_before_write', True, has('bycycle/utils/dataframes.py', 'limit_df', r"df = df\[df\['sample_last_' \+ side_e\]\.values", 'df'))
+    G['epochFresh'] = S.get('guard.epoch_df.iloc_before_write', True, has('bycycle/utils/dataframes.py', 'epoch_df', r'df_single = df_features\.iloc\[idx_range\]', 'df_features'))
     def suffixes():
         src = ast.unparse(_func('bycycle/objs/fit.py', '__init__'))
         m = _re.search(r"if not k\.endswith\('(\w+)'\) and k != '(\w+)':\s*self\.thresholds\[k \+ '(\w+)'\] = self\.thresholds\.pop\(k\)", src)
